@@ -295,4 +295,26 @@ theorem inv_run {g : Cfg} (as : List Act) : ∀ s, AllC CInv s → GInv s → Al
     · rename_i s' hs; exact ih s' (allCInv_step h1 hs) (ginv_step h1 h2 hs)
     · exact ih s h1 h2
 
+/-! ### closing what is already closed changes nothing; settled conns are out of the map -/
+
+theorem closeWhere_id {p : C → Bool} {e : Env} {cs : List C} (h : ∀ c ∈ cs, p c = true → c.closed = true) :
+    closeWhere p e cs = cs := by
+  unfold closeWhere
+  conv => rhs; rw [← List.map_id cs]
+  apply List.map_congr_left
+  intro c hc
+  by_cases hp : p c = true
+  · simp only [hp, if_true, id]
+    unfold closeC
+    simp [h c hc hp]
+  · simp [hp]
+
+theorem online_zero_of_settled {s : St} (hc : AllC CInv s) (hs : ∀ c ∈ s.conns, settled c = true) : online s = 0 := by
+  unfold online
+  rw [List.length_eq_zero_iff, List.filter_eq_nil_iff]
+  intro c hm
+  have := (settled_out (hc c hm) (hs c hm)).1
+  simp [this]
+
+
 end HttpStop
